@@ -2232,6 +2232,9 @@ def c07(rep, tier):
                     c = strip_casts(i2['c'])
                     neg = c.get('k') == 'un' and c['op'] == '!' and field_chain(c['e'])[1][-1:] == ['is_temp']
                     asg = [x for x in walk_all_exprs(i2['t']) if (x.get('k') == 'call' and m.callee(x).endswith('::operator=')) or x.get('k') == 'assign']
+                    # (register indices are distinct keys: emplace / insert / insert_or_assign of (i, name) into the fresh map is the same as map[i] = name)
+                    asg += [x for x in walk_all_exprs(i2['t']) if x.get('k') == 'call' and x.get('obj') is not None and
+                            m.callee(x).split('::')[-1] in ('emplace', 'insert', 'try_emplace', 'insert_or_assign') and len(x.get('args', [])) >= 1]
                     tomap = [x for x in asg if 'map' in show(x.get('obj') or x.get('l')) and 'name' in show(x)]
                     if neg and tomap and i2.get('e') is None:
                         okmap = True
@@ -2697,9 +2700,11 @@ def variable_view_rule(R, rep):
             tgt = val = None
             if e.get('k') == 'assign':
                 tgt, val = strip_casts(e['l']), e['r']
+            elif is_call(e, '::insert_or_assign') and len(e.get('args', [])) == 2 and e.get('obj') is not None:
+                tgt, val = {'k': 'call', 'callee': 'map::operator[]', 'obj': e['obj'], 'args': [e['args'][0]]}, e['args'][1]      # view.insert_or_assign(name, value) is view[name] = value
             if tgt is None or not is_call(tgt, '::operator[]'):
                 continue
-            key = show(tgt['args'][0])
+            key = show(strip_copies(strip_casts(tgt['args'][0])))
             vtxt = show(val)
             idx_ok = False
             v = strip_casts(gm0.inline_value(f, val))
